@@ -247,8 +247,14 @@ func closureTables(repo string, cfg *ast.FuncDecl, fsetRun *token.FileSet, run *
 		switch {
 		case !hasStmt(ri, "value = genValue(mxn)") || !hasStmt(ri, "mxn := n.child[1]") || !hasStmt(ri, "index2 := index0 - 1"):
 			fact("rangeInt keeps the value object of the bound", "unrecognised: the bound is not genValue(n.child[1]) / the max slot is not index0 - 1")
+		case hasStmt(ri, "f.data[index2] = value(f)"):
+			// before 231dea3 (F51): the hidden slot takes the value object — a variable's own cell
+			fact("rangeInt keeps the value object of the bound", "true")
+		case hasStmt(ri, "f.data[index2].SetInt(value(f).Int())"):
+			// the bound is copied when the loop is entered
+			fact("rangeInt keeps the value object of the bound", "false")
 		default:
-			fact("rangeInt keeps the value object of the bound", boolFact(hasStmt(ri, "f.data[index2] = value(f)")))
+			fact("rangeInt keeps the value object of the bound", "unrecognised: how the init closure of rangeInt sets the max slot")
 		}
 	}
 
@@ -299,10 +305,35 @@ func closureTables(repo string, cfg *ast.FuncDecl, fsetRun *token.FileSet, run *
 				msg = m
 			}
 		}
+		const redeclFact = "a define of the loop variable's name in the loop body is a nop"
 		if defIf == nil {
 			add("case assignStmt, defineStmt: define allocates a slot", msg)
+			fact(redeclFact, msg)
 		} else {
 			add("case assignStmt, defineStmt: define allocates a slot", nodeHash(defIf))
+			// before 1c8103f (F52): `if fi != nil && dest.ident == fi.ident { n.gen = nop; break }`;
+			// since: `case n.kind == defineStmt && isLoopVarCopy(n.anc, dest.ident, sc):` with an empty body,
+			// so that the declaration takes a slot of its own like any new name
+			newClause := false
+			ast.Inspect(defIf, func(x ast.Node) bool {
+				if cc, ok := x.(*ast.CaseClause); ok && len(cc.List) == 1 && len(cc.Body) == 0 &&
+					exprText(cc.List[0]) == "n.kind == defineStmt && isLoopVarCopy(n.anc, dest.ident, sc)" {
+					newClause = true
+				}
+				return true
+			})
+			oldNop := hasStmt(defIf, "n.gen = nop")
+			switch {
+			case oldNop && !newClause:
+				fact(redeclFact, "true")
+			case newClause && !oldNop:
+				fact(redeclFact, "false")
+			default:
+				fact(redeclFact, "unrecognised: neither the nop of a redefined loop variable nor the isLoopVarCopy clause")
+			}
+		}
+		if fsetC, fC, err := common.ParseFile(repo, "interp/cfg.go"); err == nil {
+			add("isLoopVarCopy", common.FuncHash(fsetC, fC, "", "isLoopVarCopy"))
 		}
 		ids := caseClausesNamed(cfg, "identExpr")
 		ok := false
